@@ -125,9 +125,11 @@ func (c *RapidChooser) Decide(h *Hand, gs *pf.GameState) Op {
 			break
 		}
 		s0 := p.InitialStackSize
-		cands := []int64{cw + prs, cw + prs + 1, cw + prs - 1, cw + 1, cw + 2*prs, (cw + s0) / 2, s0 - 1, s0, s0 + 1, cw + prs + 2}
+		cands := []int64{cw + prs, cw + prs + 1, cw + prs - 1, cw + 1, cw + 2*prs, (cw + s0) / 2, s0 - 1, s0, s0 + 1, cw + prs + 2, 2 * cw}
 		if rapid.IntRange(0, 9).Draw(rt, "modest") < 6 {
-			cands = []int64{cw + prs, cw + prs + 1, cw + 2*prs, cw + prs + 2, cw + prs}
+			// 2*cw: a raise by the size of the standing wager (the previous bet when
+			// it was the first of the round)
+			cands = []int64{cw + prs, cw + prs + 1, cw + 2*prs, cw + prs + 2, cw + prs, 2 * cw, 2*cw + 1}
 		}
 		if c.Pr.Hostile && rapid.IntRange(0, 5).Draw(rt, "hostile") == 0 {
 			cands = []int64{0, -1, cw - 1, cw, -huge, huge, -s0, cw / 2, cw + prs - 1, cw + 1}
